@@ -41,7 +41,7 @@ KF_MECH = "C01/smc-evidence-inflated-by-inverse-prior-support-mass-of-proposal"
 
 
 def gen_cell(g, k, tier):
-    kinds = [["box", "box"], ["hug"], ["hug", "box"], ["vonmises", "box"], ["vonmises"], ["box", "hug", "box"], ["box", "box", "vonmises", "hug"]]
+    kinds = [["box", "box"], ["hug"], ["hug", "box"], ["vonmises", "box"], ["vonmises"], ["box", "hug", "box"], ["box", "box", "vonmises", "hug"], ["vonmises", "box", "vonmises"]]
     tk = kinds[k % len(kinds)]
     from ..targets import family
 
